@@ -10,11 +10,15 @@ class P(vlib.Prop):
             "parseRepositoryIndex; the harness hands the abstract view, the crypto/rsa truth table of verification and the ParsePackageIndex table to the model; "
             "sweep stage (exploration): every truncation point, single-bit/byte alterations, deletions, insertions, splices and cross-overs between signed archives and "
             "hand-made tar blocks appended to the signature member, judged on the real code against the property itself. "
+            "repos stage: HISTORIES of calls of the real GetRepositoryIndexes (one goroutine per repository, process-wide index cache) over eight repositories whose indexes are signed by "
+            "alice, signed by bob, unsigned or spliced, reached as local directories, over HTTP with and without an ETag; every call has its own key set, ignore flag and exemption list; "
+            "the validator demands that every index a call returns was authorised by THAT call, and the outcome is compared with the cache model (Model/IndexCache.v). "
             "A parse case is non-trivial when the archive has a signature member with at least one entry; distinct = distinct case terms.")
     stages = (
         dict(name="names", cmd="c04", args=lambda t, s: ["-stage", "names"]),
         dict(name="parse", cmd="c04", args=lambda t, s: ["-stage", "parse"]),
         dict(name="sweep", cmd="c04", args=lambda t, s: ["-stage", "sweep"]),
+        dict(name="repos", cmd="c04", args=lambda t, s: ["-stage", "repos"]),
     )
     assumptions = (
         "SHA-1/SHA-256, RSA PKCS1v15 verification and the APKINDEX text parser are Section variables; theorems speak about the verify oracle's answer and equality of what is hashed, not about collision resistance",
